@@ -30,10 +30,11 @@ def families(tier):
     add("F2-two-leaves", f2)
     # F3: plain block with one child of every shape x flag
     add("F3-block-child", [[Rule("a *", [Rule(shape(s, "c"), **f)])] for s in range(len(SHAPES)) for f in CHILD_FLAGS])
-    # F4: flagged block with a plain, ordered, permanent or ignore_changes child
+    # F4: flagged block with a plain, ordered, permanent, ignore_changes or undo_redo child
     # (an %ordered block that moves is removed and re-created; its children are then written anew, whatever their logic)
     add("F4-flagged-block", [[Rule("a *", [Rule("c *", **cf)], **bf)]
-                             for bf in BLOCK_FLAGS for cf in ({}, {"ordered": True}, {"logic": "permanent"}, {"logic": "ignore_changes"})])
+                             for bf in BLOCK_FLAGS for cf in ({}, {"ordered": True}, {"logic": "permanent"}, {"logic": "ignore_changes"},
+                                                                      {"logic": "undo_redo"})])
     # F5: block with two children: a plain one of every shape and a flagged one
     # (a block whose content is rewritten as a whole has only %rewrite child rules, as in every shipped rulebook;
     #  mixing %rewrite and ordinary child rules in one block is outside the documented meaning of %rewrite)
@@ -97,6 +98,8 @@ def families(tier):
     #      is below a row that stays is still compared row by row)
     add("F23-rewrite-block-with-plain-children", [[Rule("a *", [Rule("c *", [Rule("e *")], rewrite=True)])],
                                                   [Rule("a", [Rule("c *", [Rule("e"), Rule("d *")], rewrite=True)])],
+                                                  # a child with its own logic below a rewritten row: written anew with the row
+                                                  [Rule("a *", [Rule("c *", [Rule("e", logic="undo_redo"), Rule("d *")], rewrite=True)])],
                                                   # at top level (no enclosing block whose body could be replaced as a whole): the
                                                   # block row itself is held by every configuration, only its content changes
                                                   [Rule("a *", [Rule("c *", [Rule("e *")]), Rule("d *")], rewrite=True, mandatory=True, nkeys=1)],
